@@ -4,16 +4,24 @@ import persist_common as pc
 SHRINKABLE = True
 MODEL = "persist"
 model_lines = pc.model_lines
+neighbourhood = pc.neighbourhood
 PROP = "C06"
 RULE = ("same font/history generator as C01 restricted to in-place saves (after a first save-as for memory-built fonts), "
-        "saves weighted up; after each save: ufoLib read-back == shadow content, no orphan files (glif not in contents.plist, "
-        "glyph directory not in layercontents, unknown top-level file), no object reports dirty, and every second save is "
-        "followed by an immediate second save that must not change any byte of the tree; non-trivial = at least one save and "
-        "one mutating op; distinct = distinct (spec, ops)")
+        "saves weighted up, 15% of the ops edit ONE object below a glyph through its own API (contour move / added point, "
+        "component move / base, anchor and guideline attribute, image colour / assignment / clearing, glyph-lib key) on loaded and "
+        "freshly read glyphs of any layer; after EVERY op the dirty flag of every object kind (font, layer set, layers, layer libs, "
+        "loaded glyphs, each contour / component / anchor / guideline, image, glyph lib, parts, image set, data set) is compared "
+        "with the M-SubFlags model, and a font that is not dirty must have its UFO hold the shadow content; after each save: ufoLib "
+        "read-back == shadow content, no orphan files (glif not in contents.plist, glyph directory not in layercontents, unknown "
+        "top-level file), no object reports dirty, and every second save is followed by an immediate second save that must neither "
+        "raise nor change any byte of the tree; non-trivial = at least one save and one mutating op; distinct = distinct (spec, ops)")
 ASSUMPTIONS = [
     "content domain as C01",
-    "dirty flags are read for font, layer set, layers, loaded glyphs, layer libs, loaded info/kerning/groups/features/lib, "
-    "image set, data set; objects below the glyph are finding F31",
+    "dirty flags are read for font, layer set, layers, loaded glyphs and everything they hold (contours only once they are objects: "
+    "shallow-loaded contours count as clean), layer libs, loaded info/kerning/groups/features, image set, data set; the font lib's "
+    "own flag is left out (public.glyphOrder, C12)",
+    "which edits are effective (guarded setters) and what each GLIF holds are computed from the shadow content and handed to the model",
+    "no disableNotifications / holds by the caller, flags never reset by hand, acyclic components",
 ]
 TRUSTED = ["fontTools.ufoLib reader/writer"]
 MODES = ["inplace"]
@@ -22,7 +30,7 @@ MODES = ["inplace"]
 def generate(rng, tier):
     n = 500 if tier == "quick" else 6000
     for _ in range(n):
-        yield pc.gen_case(rng, tier, MODES, p_save=0.2)
+        yield pc.gen_case(rng, tier, MODES, p_save=0.2, sub_edits=0.15)
 
 
 def run_impl(case):
